@@ -304,7 +304,7 @@ fn close_with_task_in_flight(seed: u64) -> Vec<Fail> {
     if mode == 1 {
         // the next filesystem call is the WAL append of this put (the background thread is parked)
         fs.reset_calls();
-        fs.set_fault(Some(crate::simfs::FaultPlan { at: 0, sticky: false }));
+        fs.set_fault(Some(crate::simfs::FaultPlan { at: 0, sticky: false, partial: false }));
         let r = db.put(WriteOptions::default(), b"after".to_vec(), b"x".to_vec());
         fs.set_fault(None);
         if r.is_ok() && fs.faults_fired() > 0 {
@@ -314,7 +314,7 @@ fn close_with_task_in_flight(seed: u64) -> Vec<Fail> {
     } else if mode == 2 {
         // everything the parked task does next fails
         fs.reset_calls();
-        fs.set_fault(Some(crate::simfs::FaultPlan { at: 0, sticky: true }));
+        fs.set_fault(Some(crate::simfs::FaultPlan { at: 0, sticky: true, partial: false }));
         what = "every filesystem call of the parked task fails";
     }
     let closer = std::thread::spawn(move || drop(db));
